@@ -288,7 +288,7 @@ def order_part(res, spec, tier, scratch):
             i += 1
             if i % spec["of"] != spec["shard"]:
                 continue
-            c = gen.Chain(bl, decl=decl, ends=("tip", "open") if len(bl) % 2 else ("tip", "tip"))
+            c = gen.Chain(bl, decl=decl, ends=("tip", "open") if len(bl) % 2 else ("tip", "tip"), self_links=(i % 3 == 0))
             name = f"{'-'.join(bl) or 'no-block'}|{decl}"
             for by_chrom in (True, False):
                 for with_seq in (False, True):
